@@ -88,25 +88,65 @@ Theorem C17_distinct_nonces_distinct_ciphertexts : forall seal k k' n n' m m',
 Proof. exact encrypt_distinct_nonces. Qed.
 Print Assumptions C17_distinct_nonces_distinct_ciphertexts.
 
-(** A passphrase-derived key accepts exactly the passphrase it was created
-    from: on any SecretKey value with the same parameters (after Zero, after
-    Unmarshal) the creating passphrase re-derives the same key, and every
-    other passphrase is rejected with ErrInvalidPassword. *)
+(** A passphrase-derived key and the passphrases it accepts.  The code hands
+    the passphrase to scrypt = PBKDF2-HMAC-SHA256, where it only acts through
+    its 64-byte HMAC key block ([hmac_key_block]: zero padded, or SHA-256 of a
+    longer passphrase).  So, on any SecretKey value with the same parameters
+    (after Zero, after Unmarshal): the creating passphrase re-derives the same
+    key; a passphrase is accepted IF AND ONLY IF it has the creating
+    passphrase's key block; every other one gets ErrInvalidPassword. *)
 Theorem C17_passphrase_exact : forall kdf hash,
-  law_kdf_inj kdf -> law_kdf_domain kdf -> law_hash_inj hash ->
+  law_kdf_inj kdf hash -> law_kdf_hmac kdf hash -> law_kdf_domain kdf -> law_hash_inj hash ->
   forall pw s n r p sk sk', new_secret_key kdf hash pw (Some s) n r p = Ok sk ->
     sk_params sk' = sk_params sk ->
     derive_key kdf hash sk' pw = (sk, None) /\
-    forall pw', (pw' <> pw -> snd (derive_key kdf hash sk' pw') = Some ErrInvalidPassword) /\
-                (snd (derive_key kdf hash sk' pw') = None <-> pw' = pw).
+    forall pw',
+      (hmac_key_block hash pw' <> hmac_key_block hash pw ->
+       snd (derive_key kdf hash sk' pw') = Some ErrInvalidPassword) /\
+      (snd (derive_key kdf hash sk' pw') = None <->
+       hmac_key_block hash pw' = hmac_key_block hash pw).
 Proof.
-  intros kdf hash L1 L2 L3 pw s n r p sk sk' H HP. split.
+  intros kdf hash L1 L2 L3 L4 pw s n r p sk sk' H HP. split.
   - exact (derive_key_accepts_creator kdf hash pw s n r p sk sk' H HP).
   - intros pw'. split.
-    + exact (derive_key_rejects_other kdf hash L1 L2 L3 pw s n r p sk sk' pw' H HP).
-    + exact (derive_key_exact kdf hash L1 L2 L3 pw s n r p sk sk' pw' H HP).
+    + exact (derive_key_rejects_other kdf hash L1 L3 L4 pw s n r p sk sk' pw' H HP).
+    + exact (derive_key_exact kdf hash L1 L2 L3 L4 pw s n r p sk sk' pw' H HP).
 Qed.
 Print Assumptions C17_passphrase_exact.
+
+(** The property's clause "accepts only the exact passphrase", outside the
+    recorded finding K = "same HMAC key block": among passphrases of at most
+    64 bytes that do not end in a NUL byte, exactly the creating passphrase is
+    accepted (every bit flip, case change, dropped, added or swapped non-NUL
+    byte of such a passphrase is rejected). *)
+Theorem C17_passphrase_exact_outside_K : forall kdf hash,
+  law_kdf_inj kdf hash -> law_kdf_domain kdf -> law_hash_inj hash ->
+  forall pw s n r p sk sk' pw', new_secret_key kdf hash pw (Some s) n r p = Ok sk ->
+    sk_params sk' = sk_params sk ->
+    (length pw <= 64)%nat -> (length pw' <= 64)%nat -> last pw 1 <> 0 -> last pw' 1 <> 0 ->
+    pw' <> pw -> snd (derive_key kdf hash sk' pw') = Some ErrInvalidPassword.
+Proof.
+  intros kdf hash L1 L3 L4 pw s n r p sk sk' pw' H HP B B' Z Z' Hne.
+  apply (derive_key_rejects_other kdf hash L1 L3 L4 pw s n r p sk sk' pw' H HP).
+  intros E. apply Hne. exact (hmac_key_block_plain hash pw' pw B' B Z' Z E).
+Qed.
+Print Assumptions C17_passphrase_exact_outside_K.
+
+(** ... and refuted inside K, for every kdf into which the passphrase enters
+    through its HMAC key block only (exact for scrypt): a passphrase shorter
+    than 64 bytes followed by a NUL byte is accepted and yields the same key.
+    (Real snacl: NewSecretKey("password") accepts DeriveKey("password\000").) *)
+Theorem C17_refuted_trailing_nul : forall kdf hash, law_kdf_hmac kdf hash ->
+  forall pw s n r p sk sk', new_secret_key kdf hash pw (Some s) n r p = Ok sk ->
+    sk_params sk' = sk_params sk -> (length pw < 64)%nat ->
+    pw ++ [0] <> pw /\ derive_key kdf hash sk' (pw ++ [0]) = (sk, None).
+Proof.
+  intros kdf hash L2 pw s n r p sk sk' H HP B. split.
+  - intros E. apply (f_equal (@length N)) in E. rewrite app_length in E. simpl in E. lia.
+  - apply (derive_key_accepts_equivalent kdf hash L2 pw s n r p sk sk' (pw ++ [0]) H HP).
+    exact (hmac_key_block_trailing_nul hash pw B).
+Qed.
+Print Assumptions C17_refuted_trailing_nul.
 
 Theorem C17_zero_then_rederive : forall kdf hash pw s n r p sk,
   new_secret_key kdf hash pw (Some s) n r p = Ok sk ->
@@ -158,14 +198,15 @@ Print Assumptions C17_le_codec.
 
 (** After a restart: the stored parameters decode to the same parameters,
     the same passphrase re-derives the same key and is accepted, a different
-    one is rejected. *)
+    one (different HMAC key block, see above) is rejected. *)
 Theorem C17_restart : forall kdf hash,
-  law_kdf_inj kdf -> law_kdf_domain kdf -> law_hash_inj hash ->
+  law_kdf_inj kdf hash -> law_kdf_domain kdf -> law_hash_inj hash ->
   forall pw s n r p sk, new_secret_key kdf hash pw (Some s) n r p = Ok sk ->
     params_in_range (sk_params sk) ->
     exists sk0, unmarshal fresh_sk (marshal sk) = Ok sk0 /\ sk_params sk0 = sk_params sk /\
       derive_key kdf hash sk0 pw = (sk, None) /\
-      forall pw', pw' <> pw -> snd (derive_key kdf hash sk0 pw') = Some ErrInvalidPassword.
+      forall pw', hmac_key_block hash pw' <> hmac_key_block hash pw ->
+                  snd (derive_key kdf hash sk0 pw') = Some ErrInvalidPassword.
 Proof. exact restart_rederives. Qed.
 Print Assumptions C17_restart.
 
@@ -173,7 +214,7 @@ Print Assumptions C17_restart.
     digest, N, R or P; in particular every single-bit flip) makes DeriveKey
     reject even the correct passphrase. *)
 Theorem C17_params_tamper : forall kdf hash,
-  law_kdf_inj kdf -> law_hash_inj hash ->
+  law_kdf_inj kdf hash -> law_hash_inj hash ->
   forall pw s n r p sk i mask sk', new_secret_key kdf hash pw (Some s) n r p = Ok sk ->
     params_in_range (sk_params sk) -> (i < 88)%nat -> mask <> 0 ->
     wf_bytes (xor_at (marshal sk) i mask) ->
@@ -207,15 +248,17 @@ Print Assumptions C17_manager_wrapper.
 Theorem C17_laws_satisfiable :
   law_open_seal toy_seal toy_open /\ law_open_only_sealed toy_seal toy_open /\
   law_seal_binds toy_seal /\ law_seal_no_near toy_seal /\ law_seal_no_prefix toy_seal /\
-  law_kdf_inj toy_kdf /\ law_kdf_domain toy_kdf /\ law_hash_inj toy_hash.
+  law_kdf_inj (toy_kdf toy_hash) toy_hash /\ law_kdf_hmac (toy_kdf toy_hash) toy_hash /\
+  law_kdf_domain (toy_kdf toy_hash) /\ law_hash_inj toy_hash.
 Proof.
   split; [exact toy_open_seal|].
   split; [exact toy_open_only_sealed|].
   split; [exact toy_seal_binds|].
   split; [exact toy_seal_no_near|].
   split; [exact toy_seal_no_prefix|].
-  split; [exact toy_kdf_inj|].
-  split; [exact toy_kdf_domain|].
+  split; [exact (toy_kdf_inj toy_hash)|].
+  split; [exact (toy_kdf_hmac toy_hash)|].
+  split; [exact (toy_kdf_domain toy_hash)|].
   exact toy_hash_inj.
 Qed.
 Print Assumptions C17_laws_satisfiable.
@@ -223,7 +266,7 @@ Print Assumptions C17_laws_satisfiable.
 (** ... and the premises on the data are satisfiable together with them: a
     toy key created from the empty passphrase has in-range parameters (32-byte
     salt and digest), survives Marshal/Unmarshal, accepts its passphrase,
-    rejects a near miss, rejects a flipped parameter byte; ciphertexts
+    rejects a near miss (accepts the NUL-padded one), rejects a flipped parameter byte; ciphertexts
     round-trip (empty plaintext too) and every kind of tampering is refused. *)
 Example C17_nonvacuous :
   let key := map N.of_nat (seq 1 32) in
@@ -248,7 +291,8 @@ Example C17_nonvacuous :
     | Ok sk0 =>
       sk_params sk0 = sk_params sk /\
       t_derive_key sk0 [] = (sk, None) /\
-      snd (t_derive_key sk0 [0]) = Some ErrInvalidPassword
+      snd (t_derive_key sk0 [1]) = Some ErrInvalidPassword /\
+      t_derive_key sk0 [0] = (sk, None)            (* the finding, in the toy too *)
     end /\
     match unmarshal fresh_sk (flip_bit (marshal sk) 40 5) with
     | Err _ => False
@@ -265,7 +309,10 @@ Example C17_nonvacuous :
          [1; 2; 3]) = None /\
   snd (t_derive_key
          match t_new_secret_key [1; 2; 3] (Some s) 16 8 1 with Ok sk => sk_zero sk | Err _ => fresh_sk end
-         [1; 2; 2]) = Some ErrInvalidPassword.
+         [1; 2; 2]) = Some ErrInvalidPassword /\
+  snd (t_derive_key
+         match t_new_secret_key [1; 2; 3] (Some s) 16 8 1 with Ok sk => sk_zero sk | Err _ => fresh_sk end
+         [1; 2; 3; 0; 0]) = None.
 Proof.
   vm_compute. repeat split; try reflexivity.
   all: repeat constructor.
